@@ -267,6 +267,21 @@ def pySetItem {α : Type} (l : List α) (i : Num) (v : α) : M (List α) :=
   if k < 0 then .error .index
   else if k.toNat < l.length then .ok (l.set k.toNat v) else .error .index
 
+/-- `isinstance(x, T)` for an integer value and `T` = `int` / `np.intN` (third round).  NumPy integer scalars are not
+    subclasses of `int` and of each other (checked: `isinstance(np.int64(3), int) = False`,
+    `isinstance(np.int32(3), np.int64) = False`); a `bool` (an `int` subclass) never has the shape "number" here. -/
+def Num.isinst (x : Num) (t : Ty) : Bool := x.ty == t
+
+/-- `bytearray(n)`: `n` zero bytes (`ValueError` for a negative count).  The value is the list of its bytes. -/
+def pyByteArray (n : Num) : M (List Num) :=
+  if n.v < 0 then .error .value else .ok (List.replicate n.v.toNat (Num.py 0))
+
+/-- `b[i] = v` on a bytearray: the value must be in `range(0, 256)` (`ValueError`, checked before the index —
+    CPython 3.12: `bytearray(3)[5] = 256` raises `ValueError`), then the index rule of lists (`IndexError`); any
+    integer type is accepted (`__index__`) and the byte is stored as a Python int. -/
+def pySetByte (l : List Num) (i : Num) (v : Num) : M (List Num) :=
+  if 0 ≤ v.v ∧ v.v < 256 then pySetItem l i (Num.py v.v) else .error .value
+
 /-- `l * n` -/
 def pyRepeat {α : Type} (l : List α) (n : Num) : List α :=
   (List.replicate n.v.toNat l).flatten
